@@ -135,6 +135,8 @@ struct Cfg {
   int iuf = 0, iif = 0;    // inter-update / inter-iteration filter intervals (0: off)
   int filt = 0;            // 0 harness shift filter, 1 SeparableGaussianImageFilter
   bool eip = true;         // enforce initial positivity
+  int maxseg = -1;         // max_segment_num_to_process as given (-1: all)
+  bool zero = false;       // zero_seg0_end_planes
   std::vector<int> a, ef;  // additive term, efficiency exponents (n = 2^ef), per bin
 };
 
@@ -175,38 +177,44 @@ struct World {
   shared_ptr<Recon> recon;
 };
 
+static shared_ptr<BinNormalisation> make_norm(const Sys& s, const Cfg& c) {
+  if (!c.norm) return shared_ptr<BinNormalisation>(new TrivialBinNormalisation);
+  std::vector<float> f(s.bins.size());
+  for (size_t b = 0; b < s.bins.size(); ++b) f[b] = std::ldexp(1.F, -c.ef[b]);   // normalisation factor = 1 / efficiency
+  shared_ptr<ProjData> npd = make_pd(s, f);
+  return shared_ptr<BinNormalisation>(new BinNormalisationFromProjData(npd));
+}
+
+static shared_ptr<GeneralisedPrior<Img>> make_prior(const Cfg& c) {
+  shared_ptr<GeneralisedPrior<Img>> r;
+  if (c.prior == 0) return r;
+  // explicit integer weights (the default 1/distance weights are not exactly representable)
+  Array<3, float> wts(IndexRange3D(-1, 1, -1, 1, -1, 1));
+  for (int dz = -1; dz <= 1; ++dz) for (int dy = -1; dy <= 1; ++dy) for (int dx = -1; dx <= 1; ++dx)
+    wts[dz][dy][dx] = (dz == 0 && dy == 0 && dx == 0) ? 0.F : ((std::abs(dz) + std::abs(dy) + std::abs(dx)) == 1 ? 2.F : 1.F);
+  if (c.prior == 1) {
+    shared_ptr<QuadraticPrior<float>> p(new QuadraticPrior<float>(false, (float)c.beta));
+    p->set_weights(wts);
+    r = p;
+  } else {
+    shared_ptr<RelativeDifferencePrior<float>> p(new RelativeDifferencePrior<float>(false, (float)c.beta, 2.F, 0.25F));
+    p->set_weights(wts);
+    r = p;
+  }
+  return r;
+}
+
 static void build_objects(World& w, const Sys& s, const Matrix& m, const Cfg& c) {
   shared_ptr<ProjectorByBinPair> pp = vh::make_explicit_projector_pair(m.data);
-  if (c.norm) {
-    std::vector<float> f(s.bins.size());
-    for (size_t b = 0; b < s.bins.size(); ++b) f[b] = std::ldexp(1.F, -c.ef[b]);   // normalisation factor = 1 / efficiency
-    shared_ptr<ProjData> npd = make_pd(s, f);
-    w.norm.reset(new BinNormalisationFromProjData(npd));
-  } else
-    w.norm.reset(new TrivialBinNormalisation);
-  w.prior.reset();
-  if (c.prior != 0) {
-    // explicit integer weights (the default 1/distance weights are not exactly representable)
-    Array<3, float> wts(IndexRange3D(-1, 1, -1, 1, -1, 1));
-    for (int dz = -1; dz <= 1; ++dz) for (int dy = -1; dy <= 1; ++dy) for (int dx = -1; dx <= 1; ++dx)
-      wts[dz][dy][dx] = (dz == 0 && dy == 0 && dx == 0) ? 0.F : ((std::abs(dz) + std::abs(dy) + std::abs(dx)) == 1 ? 2.F : 1.F);
-    if (c.prior == 1) {
-      shared_ptr<QuadraticPrior<float>> p(new QuadraticPrior<float>(false, (float)c.beta));
-      p->set_weights(wts);
-      w.prior = p;
-    } else {
-      shared_ptr<RelativeDifferencePrior<float>> p(new RelativeDifferencePrior<float>(false, (float)c.beta, 2.F, 0.25F));
-      p->set_weights(wts);
-      w.prior = p;
-    }
-  }
+  w.norm = make_norm(s, c);
+  w.prior = make_prior(c);
   w.of.reset(new PLL);
   w.of->set_proj_data_sptr(w.y);
   w.of->set_projector_pair_sptr(pp);
   if (c.additive) w.of->set_additive_proj_data_sptr(w.a);
   w.of->set_normalisation_sptr(w.norm);
-  w.of->set_zero_seg0_end_planes(false);
-  w.of->set_max_segment_num_to_process(-1);
+  w.of->set_zero_seg0_end_planes(c.zero);
+  w.of->set_max_segment_num_to_process(c.maxseg);
   w.of->set_use_subset_sensitivities(c.uss);
   w.of->set_recompute_sensitivity(true);
   if (c.prior != 0) w.of->set_prior_sptr(w.prior);
@@ -259,8 +267,11 @@ static long long fxval(double v, int k) {
   return std::llround(sc);
 }
 
-static void emit_instance(vh::Trace& tr, const char* mode, const Sys& s, const Matrix& m, const Cfg& c, int K, const std::vector<int>* y) {
+static void emit_instance(vh::Trace& tr, const char* mode, const Sys& s, const Matrix& m, const Cfg& c, int K, const std::vector<int>* y,
+                          const char* change = nullptr) {
   vh::Json ji("Instance");
+  // change: the objects of the previous Instance are RE-USED after this one setting was changed through the public setters
+  ji.boolean("reuse", change != nullptr).str("change", change ? change : "").boolean("zero", c.zero).num("maxSeg", c.maxseg);
   ji.str("mode", mode).num("sys", m.id).num("N", c.N).num("startSubset", c.startSubset).boolean("additive", c.additive).boolean("norm", c.norm)
       .boolean("uss", c.uss).num("prior", c.prior).boolean("mult", c.multiplicative).num("beta", c.beta).num("iuf", c.iuf).num("iif", c.iif)
       .num("filt", c.filt).boolean("eip", c.eip).num("K", K).num("ik", IK).num("gk", GK).num("lk", LK).arr("a", c.a).arr("ef", c.ef);
@@ -325,8 +336,92 @@ static double value_of(World& w, const Img& at, bool* err) {
   return v;
 }
 
+// ---------------------------------------------------------------- re-use histories
+// ONE sensitivity- or update-relevant setting of the EXISTING objects is changed through the public setters (the number of
+// subsets stays); c is updated to describe the new configuration, y (free mode: the data) too when the input data change.
+// Returns the name of the change (nullptr: this change is not applicable to the configuration).
+static const int NUM_CHANGES = 9;
+static const char* apply_change(World& w, const Sys& s, Cfg& c, int what, vh::Rng& rng, std::vector<int>* y) {
+  const size_t nb = s.bins.size();
+  switch (what) {
+  case 0: {  // another normalisation object
+    std::vector<int> ef(nb);
+    bool differs = false;
+    for (size_t b = 0; b < nb; ++b) { ef[b] = rng.range(-2, 0); if (ef[b] != c.ef[b]) differs = true; }
+    if (!differs) ef[0] = c.ef[0] == 0 ? -1 : 0;
+    c.norm = true; c.ef = ef;
+    w.norm = make_norm(s, c);
+    w.of->set_normalisation_sptr(w.norm);
+    return "normalisation";
+  }
+  case 1: {  // another additive term (switched on if there was none)
+    std::vector<int> a(nb);
+    for (size_t b = 0; b < nb; ++b) a[b] = (c.a[b] + rng.range(1, 3)) % 4;
+    c.additive = true; c.a = a;
+    std::vector<float> af(a.begin(), a.end());
+    w.a = make_pd(s, af);
+    w.of->set_additive_proj_data_sptr(w.a);
+    return "additive";
+  }
+  case 2: {  // other input data (a new projection data object)
+    std::vector<float> yf(nb, 0.F);
+    if (y) for (size_t b = 0; b < nb; ++b) { (*y)[b] = (*y)[b] == 0 ? rng.range(0, 20) : (*y)[b] + rng.range(1, 9); yf[b] = (float)(*y)[b]; }
+    w.y = make_pd(s, yf);
+    w.recon->set_input_data(w.y);
+    return "input data";
+  }
+  case 3:  // max_segment_num_to_process
+    if (c.zero) return nullptr;   // (segment 0 alone with its end planes zeroed would leave no data at all)
+    c.maxseg = c.maxseg == 0 ? -1 : 0;
+    w.of->set_max_segment_num_to_process(c.maxseg);
+    return "max_segment_num_to_process";
+  case 4:  // zero_seg0_end_planes
+    if (!c.zero && c.maxseg == 0) return nullptr;
+    c.zero = !c.zero;
+    w.of->set_zero_seg0_end_planes(c.zero);
+    return "zero_seg0_end_planes";
+  case 5:  // use_subset_sensitivities
+    c.uss = !c.uss;
+    w.of->set_use_subset_sensitivities(c.uss);
+    return "use_subset_sensitivities";
+  case 6:  // a prior where there was none, none where there was one
+    if (c.prior == 0) { c.prior = rng.range(1, 2); c.beta = c.prior == 1 ? 4 : 8; c.multiplicative = rng.coin(); }
+    else c.prior = 0;
+    w.prior = make_prior(c);
+    w.of->set_prior_sptr(w.prior);
+    if (c.prior != 0) w.recon->set_MAP_model(c.multiplicative ? "multiplicative" : "additive");
+    return c.prior != 0 ? "prior added" : "prior removed";
+  case 7:  // penalisation factor of the existing prior object
+    if (c.prior == 0) return nullptr;
+    c.beta = c.beta >= 8 ? 1 : c.beta * 8;
+    w.prior->set_penalisation_factor((float)c.beta);
+    return "penalisation factor";
+  default:  // MAP model
+    if (c.prior == 0) return nullptr;
+    c.multiplicative = !c.multiplicative;
+    w.recon->set_MAP_model(c.multiplicative ? "multiplicative" : "additive");
+    return "MAP model";
+  }
+}
+// picks the applicable kind of change that was used least so far (so that every kind occurs in every trace)
+static const char* change_something(World& w, const Sys& s, Cfg& c, vh::Rng& rng, std::vector<int>* y) {
+  static long used[NUM_CHANGES + 1] = { 0 };   // (kind 6 counts twice: prior added / prior removed)
+  int best = -1;
+  for (int t = 0; t < NUM_CHANGES; ++t) {
+    const bool applicable = t == 3 ? !c.zero : (t == 4 ? (c.zero || c.maxseg != 0) : ((t == 7 || t == 8) ? c.prior != 0 : true));
+    if (!applicable) continue;
+    const int slot = (t == 6 && c.prior != 0) ? NUM_CHANGES : t;
+    const int bslot = best < 0 ? -1 : ((best == 6 && c.prior != 0) ? NUM_CHANGES : best);
+    if (best < 0 || used[slot] < used[bslot]) best = t;
+  }
+  if (best < 0) return nullptr;
+  ++used[(best == 6 && c.prior != 0) ? NUM_CHANGES : best];
+  return apply_change(w, s, c, best, rng, y);
+}
+
 // ---------------------------------------------------------------- mode exact
-static void run_exact(vh::Trace& tr, const Sys& s, const Matrix& m, const Cfg& c, vh::Rng& rng) {
+static void run_exact(vh::Trace& tr, const Sys& s, const Matrix& m, const Cfg& c0, vh::Rng& rng, bool reuse) {
+  Cfg c = c0;
   const int nv = (int)s.vox.size();
   const size_t nb = s.bins.size();
   const int K = std::min(3 * c.N, 12);
@@ -336,11 +431,74 @@ static void run_exact(vh::Trace& tr, const Sys& s, const Matrix& m, const Cfg& c
   if (c.additive) w.a = make_pd(s, af);
   build_objects(w, s, m, c);
   w.recon->set_disable_output(true);
+  w.recon->set_save_interval(1);
+  // one life of the objects: set_up, then K sub-iterations each started from a fresh exact state
+  auto life = [&](const char* change) -> bool {
+    w.recon->set_start_subiteration_num(1);
+    w.recon->set_num_subiterations(K);
+    emit_instance(tr, "exact", s, m, c, K, nullptr, change);
+    shared_ptr<Img> target(s.t.image->get_empty_copy());
+    target->fill(1.F);
+    std::string msg;
+    bool ok = false;
+    bool err = vh::threw([&] { ok = w.recon->set_up(target) == Succeeded::yes; }, &msg);
+    {
+      vh::Json js("SetUp");
+      js.boolean("err", err).boolean("ok", ok).num("usedN", w.recon->get_num_subsets());
+      if (err) js.str("msg", msg.substr(0, 100));
+      tr.emit(js);
+    }
+    if (err || !ok) return false;
+    for (int k = 1; k <= K; ++k) {
+      // a fresh exact state: integer image (zeros included), data y = q * d
+      std::vector<int> lam(nv), y(nb);
+      for (int v = 0; v < nv; ++v) lam[v] = rng.range(0, 6) == 0 ? 0 : rng.range(1, 6);
+      const std::vector<int> d = proj(m, lam, c.a);
+      for (size_t b = 0; b < nb; ++b) y[b] = rng.range(0, 3) * d[b];
+      set_pd(*w.y, s, y);
+      std::vector<float> lf(lam.begin(), lam.end());
+      shared_ptr<Img> cur = image_from(s, lf);
+      vh::Json j("Step");
+      j.num("k", k).arr("lam", lam).arr("y", y);
+      put_prior_gradient(j, w, *cur);
+      bool verr = false;
+      const double L0 = value_of(w, *cur, &verr);
+      err = vh::threw([&] {
+        w.recon->set_start_subiteration_num(k);
+        w.recon->set_num_subiterations(k);
+        w.recon->reconstruct(cur);
+      }, &msg);
+      const double L1 = value_of(w, *cur, &verr);
+      j.boolean("err", err);
+      if (err) j.str("msg", msg.substr(0, 100));
+      put_fx(j, "out", "outx", *cur, IK);
+      j.num("L0", fxval(L0, LK)).num("L1", fxval(L1, LK)).boolean("verr", verr);
+      tr.emit(j);
+      if (err) return false;
+    }
+    return true;
+  };
+  if (!life(nullptr) || !reuse) return;
+  // the SAME objects after one setting was changed through the setters: set up again, every sub-iteration must follow the NEW settings
+  const char* change = change_something(w, s, c, rng, nullptr);
+  if (change) life(change);
+}
+
+// ---------------------------------------------------------------- mode free (+ restart)
+static std::string saved_name(const std::string& prefix, int k) { return prefix + "_" + std::to_string(k) + ".hv"; }
+static void remove_saved(const std::string& prefix, int k) {
+  for (const char* ext : { ".hv", ".v", ".ahv" }) std::remove((prefix + "_" + std::to_string(k) + ext).c_str());
+}
+
+// set_up + reconstruct from `start` with every iterate saved under `prefix`; logs SetUp, Start, Step..., Final.
+// Returns true if the run was completed.
+static bool record_free_run(vh::Trace& tr, const Sys& s, World& w, const std::string& prefix, int K, const std::vector<float>& start) {
+  w.recon->set_disable_output(false);
+  w.recon->set_output_filename_prefix(prefix);
+  w.recon->set_start_subiteration_num(1);
   w.recon->set_num_subiterations(K);
-  w.recon->set_save_interval(K);
-  emit_instance(tr, "exact", s, m, c, K, nullptr);
-  shared_ptr<Img> target(s.t.image->get_empty_copy());
-  target->fill(1.F);
+  w.recon->set_save_interval(1);
+  shared_ptr<Img> target = image_from(s, start);
   std::string msg;
   bool ok = false;
   bool err = vh::threw([&] { ok = w.recon->set_up(target) == Succeeded::yes; }, &msg);
@@ -350,40 +508,77 @@ static void run_exact(vh::Trace& tr, const Sys& s, const Matrix& m, const Cfg& c
     if (err) js.str("msg", msg.substr(0, 100));
     tr.emit(js);
   }
-  if (err || !ok) return;
-  for (int k = 1; k <= K; ++k) {
-    // a fresh exact state: integer image (zeros included), data y = q * d
-    std::vector<int> lam(nv), y(nb);
-    for (int v = 0; v < nv; ++v) lam[v] = rng.range(0, 6) == 0 ? 0 : rng.range(1, 6);
-    const std::vector<int> d = proj(m, lam, c.a);
-    for (size_t b = 0; b < nb; ++b) y[b] = rng.range(0, 3) * d[b];
-    set_pd(*w.y, s, y);
-    std::vector<float> lf(lam.begin(), lam.end());
-    shared_ptr<Img> cur = image_from(s, lf);
-    vh::Json j("Step");
-    j.num("k", k).arr("lam", lam).arr("y", y);
-    put_prior_gradient(j, w, *cur);
+  if (err || !ok) return false;
+  {
+    // the image the iterations start from (after set_up, which may have thresholded it)
+    vh::Json j("Start");
+    put_fx(j, "out", "outx", *target, IK);
     bool verr = false;
-    const double L0 = value_of(w, *cur, &verr);
-    err = vh::threw([&] {
-      w.recon->set_start_subiteration_num(k);
-      w.recon->set_num_subiterations(k);
-      w.recon->reconstruct(cur);
-    }, &msg);
-    const double L1 = value_of(w, *cur, &verr);
-    j.boolean("err", err);
-    if (err) j.str("msg", msg.substr(0, 100));
-    put_fx(j, "out", "outx", *cur, IK);
-    j.num("L0", fxval(L0, LK)).num("L1", fxval(L1, LK)).boolean("verr", verr);
+    const double L = value_of(w, *target, &verr);
+    j.num("L", fxval(L, LK)).boolean("verr", verr);
+    put_bits(j, "bh", "bl", *target);
     tr.emit(j);
-    if (err) return;
   }
+  shared_ptr<Img> prev(target->clone());
+  err = vh::threw([&] { w.recon->reconstruct(target); }, &msg);
+  if (err) { tr.emit(vh::Json("RunError").str("msg", msg.substr(0, 100))); return false; }
+  // the saved iterates, read back
+  for (int k = 1; k <= K; ++k) {
+    vh::Json j("Step");
+    j.num("k", k);
+    put_prior_gradient(j, w, *prev);
+    shared_ptr<Img> im;
+    const bool rerr = vh::threw([&] { im = read_from_file<Img>(saved_name(prefix, k)); }, &msg);
+    j.boolean("err", rerr);
+    if (rerr || !im) { j.str("msg", msg.substr(0, 100)); tr.emit(j); return false; }
+    put_fx(j, "out", "outx", *im, IK);
+    bool verr = false;
+    const double L = value_of(w, *im, &verr);
+    j.num("L1", fxval(L, LK)).boolean("verr", verr);
+    put_bits(j, "bh", "bl", *im);
+    tr.emit(j);
+    prev = im;
+  }
+  { vh::Json jf("Final"); put_bits(jf, "bh", "bl", *target); tr.emit(jf); }
+  return true;
 }
 
-// ---------------------------------------------------------------- mode free (+ restart)
-static std::string saved_name(const std::string& prefix, int k) { return prefix + "_" + std::to_string(k) + ".hv"; }
-static void remove_saved(const std::string& prefix, int k) {
-  for (const char* ext : { ".hv", ".v", ".ahv" }) std::remove((prefix + "_" + std::to_string(k) + ext).c_str());
+// FRESH objects with configuration c run from the start image (logged as Resume k = 0 with the given variant + Cont lines):
+// what the re-used objects have to reproduce bit for bit
+static void record_fresh_run(vh::Trace& tr, const Sys& s, const Matrix& m, const Cfg& c, const std::vector<int>& y, const std::string& rprefix, int K,
+                             const std::vector<float>& start, int variant) {
+  std::string msg;
+  World w2;
+  std::vector<float> yf(y.begin(), y.end()), af(c.a.begin(), c.a.end());
+  w2.y = make_pd(s, yf);
+  if (c.additive) w2.a = make_pd(s, af);
+  build_objects(w2, s, m, c);
+  Recon* rc = w2.recon.get();
+  rc->set_output_filename_prefix(rprefix);
+  rc->set_num_subiterations(K);
+  rc->set_save_interval(1);
+  vh::Json jr("Resume");
+  jr.num("k", 0).num("variant", variant).boolean("eip", c.eip);
+  shared_ptr<Img> from = image_from(s, start);
+  put_bits(jr, "fromh", "froml", *from);
+  bool ok = false;
+  bool rerr = vh::threw([&] { ok = rc->set_up(from) == Succeeded::yes; }, &msg);
+  put_bits(jr, "afterh", "afterl", *from);
+  if (!rerr && ok) rerr = vh::threw([&] { rc->reconstruct(from); }, &msg);
+  jr.boolean("err", rerr || !ok);
+  if (rerr) jr.str("msg", msg.substr(0, 100));
+  tr.emit(jr);
+  if (rerr || !ok) return;
+  for (int jn = 1; jn <= K; ++jn) {
+    vh::Json jc("Cont");
+    jc.num("k", 0).num("j", jn).num("variant", variant);
+    shared_ptr<Img> im;
+    const bool e2 = vh::threw([&] { im = read_from_file<Img>(saved_name(rprefix, jn)); }, &msg);
+    jc.boolean("err", e2 || !im);
+    if (!e2 && im) put_bits(jc, "bh", "bl", *im);
+    tr.emit(jc);
+    remove_saved(rprefix, jn);
+  }
 }
 
 static void run_free(vh::Trace& tr, const Sys& s, const Matrix& m, const Cfg& c0, vh::Rng& rng, const std::string& scratch, int stage) {
@@ -409,52 +604,9 @@ static void run_free(vh::Trace& tr, const Sys& s, const Matrix& m, const Cfg& c0
   if (c.additive) w.a = make_pd(s, af);
   build_objects(w, s, m, c);
   const std::string prefix = scratch + "/c07_run";
-  w.recon->set_output_filename_prefix(prefix);
-  w.recon->set_num_subiterations(K);
-  w.recon->set_save_interval(1);
   emit_instance(tr, "free", s, m, c, K, &y);
-  shared_ptr<Img> target = image_from(s, start);
   std::string msg;
-  bool ok = false;
-  bool err = vh::threw([&] { ok = w.recon->set_up(target) == Succeeded::yes; }, &msg);
-  {
-    vh::Json js("SetUp");
-    js.boolean("err", err).boolean("ok", ok).num("usedN", w.recon->get_num_subsets());
-    if (err) js.str("msg", msg.substr(0, 100));
-    tr.emit(js);
-  }
-  if (err || !ok) return;
-  {
-    // the image the iterations start from (after set_up, which may have thresholded it)
-    vh::Json j("Start");
-    put_fx(j, "out", "outx", *target, IK);
-    bool verr = false;
-    const double L = value_of(w, *target, &verr);
-    j.num("L", fxval(L, LK)).boolean("verr", verr);
-    put_bits(j, "bh", "bl", *target);
-    tr.emit(j);
-  }
-  shared_ptr<Img> prev(target->clone());
-  err = vh::threw([&] { w.recon->reconstruct(target); }, &msg);
-  if (err) { tr.emit(vh::Json("RunError").str("msg", msg.substr(0, 100))); return; }
-  // the saved iterates, read back
-  for (int k = 1; k <= K; ++k) {
-    vh::Json j("Step");
-    j.num("k", k);
-    put_prior_gradient(j, w, *prev);
-    shared_ptr<Img> im;
-    const bool rerr = vh::threw([&] { im = read_from_file<Img>(saved_name(prefix, k)); }, &msg);
-    j.boolean("err", rerr);
-    if (rerr || !im) { j.str("msg", msg.substr(0, 100)); tr.emit(j); return; }
-    put_fx(j, "out", "outx", *im, IK);
-    bool verr = false;
-    const double L = value_of(w, *im, &verr);
-    j.num("L1", fxval(L, LK)).boolean("verr", verr);
-    put_bits(j, "bh", "bl", *im);
-    tr.emit(j);
-    prev = im;
-  }
-  { vh::Json jf("Final"); put_bits(jf, "bh", "bl", *target); tr.emit(jf); }
+  if (!record_free_run(tr, s, w, prefix, K, start)) return;
 
   // ---- restart from the file saved after k, for every interruption point k
   for (int k = 1; k < K; ++k) {
@@ -556,6 +708,27 @@ static void run_free(vh::Trace& tr, const Sys& s, const Matrix& m, const Cfg& c0
       }
   }
   for (int k = 1; k <= K; ++k) remove_saved(prefix, k);
+
+  // ---- re-use history: ONE setting of the SAME objects is changed through the public setters (number of subsets unchanged),
+  // they are set up and run again from the start image: every sub-iteration has to follow the NEW settings (a new Instance
+  // line describes them) and the run has to be the run of fresh objects with those settings (variant 4), bit for bit
+  {
+    Cfg c2 = c;
+    std::vector<int> y2 = y;
+    bool cerr = false;
+    const char* change = nullptr;
+    cerr = vh::threw([&] {
+      w.recon->set_num_subsets(c.N);
+      w.recon->set_start_subset_num(c.startSubset);
+      change = change_something(w, s, c2, rng, &y2);
+    }, &msg);
+    if (cerr || !change) return;
+    const std::string uprefix = scratch + "/c07_reuse";
+    emit_instance(tr, "free", s, m, c2, K, &y2, change);
+    if (record_free_run(tr, s, w, uprefix, K, start))
+      record_fresh_run(tr, s, m, c2, y2, scratch + "/c07_res", K, start, 4);
+    for (int k = 1; k <= K; ++k) remove_saved(uprefix, k);
+  }
 }
 
 int main(int argc, char** argv) {
@@ -579,7 +752,7 @@ int main(int argc, char** argv) {
     if (!mats[t].data || rng.range(0, 3) == 0 || i % 6 == 0 || i % 6 == 3) { mats[t] = make_matrix(sys[t], rng); }
     tr.emit(mats[t].sysjson);
     Cfg c = random_cfg(sys[t], rng, i, stage);
-    if (mode == "exact") run_exact(tr, sys[t], mats[t], c, rng);
+    if (mode == "exact") run_exact(tr, sys[t], mats[t], c, rng, i % 2 == 1);
     else if (mode == "free") run_free(tr, sys[t], mats[t], c, rng, scratch, stage);
     else { fprintf(stderr, "unknown mode\n"); return 2; }
   }
